@@ -74,6 +74,8 @@ import "github.com/openkruise/rollouts/api/v1beta1"
 //@ ensures workload_ref: hubRollout(dst).Spec.WorkloadRef.APIVersion == src.Spec.ObjectRef.WorkloadRef.APIVersion && hubRollout(dst).Spec.WorkloadRef.Kind == src.Spec.ObjectRef.WorkloadRef.Kind && hubRollout(dst).Spec.WorkloadRef.Name == src.Spec.ObjectRef.WorkloadRef.Name
 //@ ensures canary_strategy: hubRollout(dst).Spec.Strategy.Canary != nil && hubRollout(dst).Spec.Strategy.BlueGreen == nil && hubRollout(dst).Spec.Strategy.Paused == src.Spec.Strategy.Paused && hubRollout(dst).Spec.Disabled == src.Spec.Disabled
 //@ ensures canary_service_flag: hubRollout(dst).Spec.Strategy.Canary.DisableGenerateCanaryService == src.Spec.Strategy.Canary.DisableGenerateCanaryService
+// (F20) v1beta1 mirrors the cursor of canaryStatus at the top level of the status (required fields, printer columns)
+//@ ensures status_top_cursor: src.Status.CanaryStatus != nil ==> hubRollout(dst).Status.CurrentStepIndex == src.Status.CanaryStatus.CurrentStepIndex && hubRollout(dst).Status.CurrentStepState == src.Status.CanaryStatus.CurrentStepState
 //@ ensures pod_template_patch_kept: (hubRollout(dst).Spec.Strategy.Canary.PatchPodTemplateMetadata == nil) == (old(src.Spec.Strategy.Canary.PatchPodTemplateMetadata) == nil) && hubRollout(dst).Spec.Strategy.Canary.FailureThreshold == old(src.Spec.Strategy.Canary.FailureThreshold)
 //@ ensures steps: len(hubRollout(dst).Spec.Strategy.Canary.Steps) == len(src.Spec.Strategy.Canary.Steps) && (forall j :: 0 <= j && j < len(src.Spec.Strategy.Canary.Steps) ==> a2bStep(hubRollout(dst).Spec.Strategy.Canary.Steps, src.Spec.Strategy.Canary.Steps, j))
 //@ ensures routings: len(hubRollout(dst).Spec.Strategy.Canary.TrafficRoutings) == len(src.Spec.Strategy.Canary.TrafficRoutings) && (forall j :: 0 <= j && j < len(src.Spec.Strategy.Canary.TrafficRoutings) ==> sameRouting(hubRollout(dst).Spec.Strategy.Canary.TrafficRoutings[j], src.Spec.Strategy.Canary.TrafficRoutings[j]))
